@@ -14,6 +14,7 @@ type Program struct {
 	Profile string
 	Stmts   []*Node
 	Need    Options // the options the program needs to be statically valid
+	Scale   int     // profile scale: the width n of the program (see ScaleBudget)
 }
 
 // Instantiate deep-copies the program and numbers its probes 1..k in
